@@ -666,7 +666,7 @@ Definition step_record (o : opts) (s : pstate) : pstate :=
 
 Definition step_body (o : opts) (s : pstate) : pstate :=
   let s3 := step_record o (step_perform o (step_allocate o s)) in
-  with_time s3 (S (time s3)).
+  with_time s3 (S (time s)).
 
 (* the trace of observer snapshots *)
 Definition obs := (nat * phase * pstate)%type.
@@ -684,7 +684,7 @@ Fixpoint run (o : opts) (fuel : nat) (s : pstate) (acc : list obs) : pstate * li
         let sp := step_perform o sa in
         let sr := step_record o sp in
         let k := time s1 in
-        run o f (with_time sr (S (time sr)))
+        run o f (with_time sr (S k))        (* self.time = self.time + unit_time *)
             (acc1 ++ [(k, PAllocated, sa); (k, PPerformed, sp); (k, PRecorded, sr)])
     end.
 
